@@ -4,11 +4,12 @@ choices (child order of piecewise, side of a computed coefficient, fall-through 
 arity checks, setter name) come from `Generated/C08Tables.lean`, i.e. from the repo's current source.
 
   convert        _convert_node and the _convert_* family                       (:95-308)
-  handleBody     _handle_body  (every statement converted, the last one kept)  (:311-316)
+  handleBody     _handle_body  (the first `return` is the result; none: ValueError)
   renameExpr     IdentifierReplacer                                            (:75-83)
   treeToSbml     _tree_to_sbml                                                 (:318-327)
   escapeId       _convert_id_to_sbml / _escape_non_alphanumeric                (:338-348)
-  exportReaction _create_sbml_reactions                                        (:525-568)
+  freshName      _free_reference (name of a species reference nothing else in the model has)
+  exportReaction _create_sbml_reactions
   exportModel    _model_to_sbml (parameters, derived, variables, reactions)
 -/
 import MxlVerif.Model.C08Syntax
@@ -118,6 +119,7 @@ def convert : PyExpr → Except XErr MathML
   | .attr p a => convertAttr p a
   | .attrDeep => .error (.attributeError "id")
   | .boolop _ _ => .error (.notImplemented "BoolOp")
+  | .callKw => .error (.notImplemented "Keyword arguments")   -- `_convert_call` looks at `node.keywords` first
   | .other => .error (.notImplemented "node")
 def convertList : List PyExpr → Except XErr (List MathML)
   | [] => .ok []
@@ -148,15 +150,25 @@ def convertStmt : PyStmt → Except XErr MathML
   | .ret (some e) => convert e
   | .other => .error (.notImplemented "stmt")
 
-/-- `code = ASTNode(); for stmt in stmts: code = _convert_node(stmt)` -/
-def handleBodyFrom (code : MathML) : List PyStmt → Except XErr MathML
+/-- the older `_handle_body`: `code = ASTNode(); for stmt in stmts: code = _convert_node(stmt); return code` -/
+def handleBodyLast (code : MathML) : List PyStmt → Except XErr MathML
   | [] => .ok code
   | s :: ss => do
       let c ← convertStmt s
-      handleBodyFrom c ss
+      handleBodyLast c ss
+
+/-- `for stmt in stmts: code = _convert_node(stmt); if isinstance(stmt, ast.Return): return code`, then
+    `raise ValueError` -/
+def handleBodyFirst : List PyStmt → Except XErr MathML
+  | [] => .error (.valueError "Model function cannot return `None`")
+  | s :: ss => do
+      let c ← convertStmt s
+      match s with
+      | .ret _ => pure c
+      | .other => handleBodyFirst ss
 
 def handleBody (stmts : List PyStmt) : Except XErr MathML :=
-  handleBodyFrom (.apply .unknown []) stmts
+  if bodyFirstReturn then handleBodyFirst stmts else handleBodyLast (.apply .unknown []) stmts
 
 /-! ### argument renaming (IdentifierReplacer visits every `ast.Name`) -/
 
@@ -180,6 +192,7 @@ def renameExpr (σ : List (String × String)) : PyExpr → PyExpr
   | .attr p a => .attr (renameId σ p) a
   | .attrDeep => .attrDeep
   | .boolop a vals => .boolop a (renameList σ vals)
+  | .callKw => .callKw
   | .other => .other
 def renameList (σ : List (String × String)) : List PyExpr → List PyExpr
   | [] => []
@@ -289,26 +302,26 @@ def SDoc.empty : SDoc := ⟨[], [], [], [], []⟩
 def iaSetterExists : Bool := iaSetter == "setSymbol"
 
 def exportInit (d : SDoc) (name : String) (f : PyFn) : Except XErr SDoc := do
-  let sym ← escapeId name "IA"
+  let sym ← escapeId name prefixInit
   if !iaSetterExists then .error (.attributeError iaSetter)
   let m ← sbmlifyFn f
   pure { d with inits := d.inits ++ [(sym, m)] }
 
 def exportParam (d : SDoc) (kv : String × PyInit) : Except XErr SDoc := do
-  let id ← escapeId kv.1 "PAR"
+  let id ← escapeId kv.1 prefixParam
   match kv.2 with
   | .val q => pure { d with params := d.params ++ [(id, some q)] }
   | .ia f => exportInit { d with params := d.params ++ [(id, none)] } kv.1 f
 
 def exportVar (d : SDoc) (kv : String × PyInit) : Except XErr SDoc := do
-  let id ← escapeId kv.1 "CPD"
+  let id ← escapeId kv.1 prefixVar
   match kv.2 with
   | .val q => pure { d with species := d.species ++ [(id, some q)] }
   | .ia f => exportInit { d with species := d.species ++ [(id, none)] } kv.1 f
 
 /-- `_create_derived_parameter` / `_create_sbml_derived_variables` -/
 def exportRule (d : SDoc) (name : String) (f : PyFn) : Except XErr SDoc := do
-  let v ← escapeId name "AR"
+  let v ← escapeId name prefixRule
   let m ← sbmlifyFn f
   pure { d with rules := d.rules ++ [(v, m)] }
 
@@ -319,38 +332,61 @@ def addRef (side : Side) (r : SRxn) (s : SRef) : SRxn :=
 
 def absRat (q : Rat) : Rat := if q < 0 then -q else q
 
+/-- `_free_reference`: `while name in taken: name += "_"`; `fuel` bounds the loop (`taken.length + 1` rounds
+    always suffice; `none` = bound hit) -/
+def freshName (taken : List String) (name : String) : Nat → Option String
+  | 0 => none
+  | fuel + 1 => if taken.contains name then freshName taken (name ++ "_") fuel else some name
+
+/-- name of the species reference (and of its assignment rule) for a computed coefficient on `species`,
+    and the names taken afterwards.  The older exporter used `<species>ref` unconditionally. -/
+def refName (taken : List String) (species : String) : Except XErr (String × List String) :=
+  if refFresh then
+    match freshName taken (species ++ refSuffix) (taken.length + 1) with
+    | some n => .ok (n, n :: taken)
+    | none => .error (.valueError "unreachable: a free name exists within len(taken) + 1 rounds")
+  else .ok (species ++ refSuffix, taken)
+
+/-- state while the reactions are written: names taken (`set(model.ids)` + references), document, reaction -/
+abbrev RState := List String × SDoc × SRxn
+
 /-- one entry of `rxn.stoichiometry` -/
-def exportCoef (st : SDoc × SRxn) (kv : String × PyCoef) : Except XErr (SDoc × SRxn) := do
-  let (d, r) := st
+def exportCoef (st : RState) (kv : String × PyCoef) : Except XErr RState := do
+  let (taken, d, r) := st
   match kv.2 with
   | .num q =>
-      let sp ← escapeId kv.1 "CPD"
+      let sp ← escapeId kv.1 prefixRefSpecies
       let side := if q < 0 then negSide else nonnegSide
-      pure (d, addRef side r ⟨sp, some (absRat q), none⟩)
+      pure (taken, d, addRef side r ⟨sp, some (absRat q), none⟩)
   | .computed f =>
-      let reference := kv.1 ++ "ref"
+      let (reference, taken') ← refName taken kv.1
       let d' ← exportRule d reference f
-      let rid ← escapeId reference "CPD"
-      let sp ← escapeId kv.1 "CPD"
-      pure (d', addRef computedSide r ⟨sp, none, some rid⟩)
+      let rid ← escapeId reference prefixRefId
+      let sp ← escapeId kv.1 prefixRefSpecies
+      pure (taken', d', addRef computedSide r ⟨sp, none, some rid⟩)
 
-def exportCoefs (st : SDoc × SRxn) : List (String × PyCoef) → Except XErr (SDoc × SRxn)
+def exportCoefs (st : RState) : List (String × PyCoef) → Except XErr RState
   | [] => .ok st
   | kv :: rest => do
       let st' ← exportCoef st kv
       exportCoefs st' rest
 
-def exportReaction (d : SDoc) (rx : PyRxn) : Except XErr SDoc := do
-  let id ← escapeId rx.name "RXN"
-  let (d', r) ← exportCoefs (d, ⟨id, [], [], .apply .unknown []⟩) rx.stoich
+def exportReaction (st : List String × SDoc) (rx : PyRxn) : Except XErr (List String × SDoc) := do
+  let (taken, d) := st
+  let id ← escapeId rx.name prefixRxn
+  let (taken', d', r) ← exportCoefs (taken, d, ⟨id, [], [], .apply .unknown []⟩) rx.stoich
   let law ← sbmlifyFn rx.fn
-  pure { d' with rxns := d'.rxns ++ [{ r with law := law }] }
+  pure (taken', { d' with rxns := d'.rxns ++ [{ r with law := law }] })
 
 def foldE {σ α} (f : σ → α → Except XErr σ) : σ → List α → Except XErr σ
   | s, [] => .ok s
   | s, a :: as => do
       let s' ← f s a
       foldE f s' as
+
+/-- every name of the model (`model.ids`) -/
+def PyModel.names (m : PyModel) : List String :=
+  m.params.map (·.1) ++ m.vars.map (·.1) ++ m.derived.map (·.1) ++ m.rxns.map (·.name)
 
 /-- `_model_to_sbml`: parameters, derived, variables, reactions.  (The real code writes derived
     parameters before the species and derived variables after them; assignment rules are compared
@@ -359,6 +395,7 @@ def exportModel (m : PyModel) : Except XErr SDoc := do
   let d ← foldE exportParam SDoc.empty m.params
   let d ← foldE (fun d kv => exportRule d kv.1 kv.2) d m.derived
   let d ← foldE exportVar d m.vars
-  foldE exportReaction d m.rxns
+  let (_, d) ← foldE exportReaction (m.names, d) m.rxns
+  pure d
 
 end Mxl.C08
